@@ -31,18 +31,6 @@ HDR = ("From Coq Require Import ZArith NArith List.\nFrom V Require Import Model
        "Import ListNotations.\n")
 
 
-# ------------------------------------------------------------------------------------------------
-# known findings of this property (the assembled /verif/known_findings.json may not list them yet)
-# ------------------------------------------------------------------------------------------------
-def _load_own_known(ctx: Ctx):
-    p = VERIF / "known_findings.d" / "C17.json"
-    if p.exists():
-        have = {k["id"] for k in ctx.known}
-        for k in json.loads(p.read_text()):
-            if k["id"] not in have and k.get("property") == "C17":
-                ctx.known.append(k)
-
-
 # ================================================================================================
 # 1. manager histories
 # ================================================================================================
@@ -609,7 +597,7 @@ def _process(ctx: Ctx, kind, results, cases, metas, shrink=True):
 
 def _model_compare(ctx: Ctx, cases, metas, suffix=""):
     for kind, checker, fb in (("mgr", "chk_mgr_history", "let '(ca, cb, l) := {c} in mfirst_bad true ca cb empty_world 1%N l"),
-                              ("registry", "chk_reg_history", "let '(ch, l) := {c} in rfirst_bad false (rinit ch) (rinit ch) 1%N l")):
+                              ("registry", "chk_reg_history", "let '(ch, l) := {c} in rfirst_bad true (rinit ch) (rinit ch) 1%N l")):
         if not cases[kind]:
             continue
         bad = ctx.coq_cases(f"{kind}_history{suffix}", HDR, cases[kind], checker, shard=40 if kind == "mgr" else 60, timeout=600)
@@ -631,7 +619,6 @@ def _corpus(ctx: Ctx):
 
 
 def run(ctx: Ctx):
-    _load_own_known(ctx)
     ctx.assumptions += [
         "the file system keeps st_ctime as documented (creation, link and unlink stamp it); the cache manager sees time only through "
         "datetime.now and os.stat, both shifted consistently by the harness (virtual clock) in the manager-level driver",
